@@ -369,7 +369,7 @@ func shortBy(p string) string {
 }
 
 func TestC13(t *testing.T) {
-	quiet()
+	quietNamed()
 	defer simwork.CleanupScratch()
 	simnet.RunCheck(t, simnet.Check{ID: "C13", Gen: genC13, NewPlan: func() any { return &C13Plan{} }, Run: runC13})
 }
